@@ -195,17 +195,17 @@ def loop_progress(ctx, prog, rule, kind="reader", floor=28):
             continue
         ctx.fn_seen(f)
         R = Resolver(f, max_depth=24)
-        for h, body in sorted(loops.items()):
+        for ordinal, (h, body) in enumerate(sorted(loops.items())):
             n += 1
-            cls, why = classify_loop(prog, iv, cons, f, R, h, body)
+            cls, why = classify_loop(prog, iv, cons, f, R, h, body, kind)
             classes[cls or "unclassified"] += 1
-            ctx.ob(rule, "loop/%s/%s" % (short(p), why[0] if cls else "bb%d" % h), cls is not None,
+            ctx.ob(rule, "loop/%s/%s" % (short(p), why[0] if cls else "unclassified-loop-%d" % ordinal), cls is not None,
                    "loop at %s: %s" % (f.file_line(h), why[1] if cls else "no progress / bound argument found: " + why[1]), where=f.file_line(h))
     ctx.extra.setdefault("loop_classes", {})[(ctx.cfg or "") + ":" + kind] = dict(classes)
     ctx.floor(rule, "loops reachable from the %s API" % kind, n, floor, semantic=False)
 
 
-def classify_loop(prog, iv, cons, f, R, h, body):
+def classify_loop(prog, iv, cons, f, R, h, body, kind="reader"):
     exits = [(b, s) for b in body for s in f.cfg().get(b, []) if s not in body]
     descs = []
     for b, s in exits:
@@ -227,6 +227,9 @@ def classify_loop(prog, iv, cons, f, R, h, body):
                     ok, why = _iterator_bounded(prog, iv, f, src, b)
                     if ok:
                         return "iterator", ("iterator/" + why[:60], "iterator loop over %s" % why)
+                    if kind == "writer":
+                        # C10 asks for termination, not for a bound in the input size: a Range over an integer is finite
+                        return "iterator", ("iterator/finite-range", "iterator loop over a finite integer range (%s)" % why)
                     return None, ("", "iterator source not bounded: %s" % why)
                 if c.endswith("ByteStreamReadBuffer::extract"):
                     # progress: bits >= 1
